@@ -29,6 +29,9 @@ def run(seed):
         shutil.rmtree(tmp, ignore_errors=True)
 
 seeds = sorted(os.listdir(os.path.join(VERIF, "seeded")))
+FILT = [a for a in sys.argv[1:] if not a.startswith("--")]
+if FILT:
+    seeds = [s for s in seeds if any(s.endswith(f) for f in FILT)]
 with concurrent.futures.ThreadPoolExecutor(max_workers=6) as ex:
     results = list(ex.map(run, seeds))
 missed = 0
